@@ -155,7 +155,7 @@ class Lib:
         self.builtins = {
             "int": B("int", self.b_int), "str": B("str", self.b_str), "float": B("float", self.b_float),
             "round": B("round", self.b_round), "bool": B("bool", self.b_bool), "len": B("len", self.b_len),
-            "max": B("max", self.b_max), "getattr": B("getattr", self.b_getattr), "next": B("next", self.b_next),
+            "max": B("max", self.b_max), "min": B("min", self.b_min), "getattr": B("getattr", self.b_getattr), "next": B("next", self.b_next),
             "sorted": B("sorted", self.b_sorted), "list": B("list", self.b_list), "tuple": B("tuple", self.b_tuple),
             "dict": B("dict", self.b_dict), "zip": B("zip", self.b_zip), "set": B("set", self.b_set),
             "isinstance": B("isinstance", self.b_isinstance), "type": B("type", self.b_type),
@@ -163,6 +163,7 @@ class Lib:
             "staticmethod": B("staticmethod", lambda I, a, k: StaticMethodVal(a[0])),
             "property": B("property", lambda I, a, k: PropertyVal(a[0])),
             "all": B("all", self.b_all), "any": B("any", self.b_any),
+            "range": B("range", self.b_range),
             "bytes": B("bytes", lambda I, a, k: (_ for _ in ()).throw(Unsupported("bytes() call"))),
             "object": B("object", lambda I, a, k: (_ for _ in ()).throw(Unsupported("object() call"))),
             "True": True, "False": False, "None": None,
@@ -512,7 +513,7 @@ class Lib:
 
     # ------------------------------------------------------------------ builtins (A-NUM, A-ENUM)
     def b_int(self, I, a, k):
-        v = a[0] if a else 0
+        v = I.force(a[0]) if a else 0
         i = I.intv(v)
         if i is not None:
             return I.mk(i, "int")
@@ -533,6 +534,16 @@ class Lib:
         return r
 
     def model_int(self, I, v):
+        if isinstance(v, LibObj) and v.kind == "json_scalar":
+            if v.jkind == "float":  # int(float): nan -> ValueError, +-inf -> OverflowError, else truncation
+                c = I.c
+                o = c.choose([c.fresh("float_is_nan", BoolS), c.fresh("float_is_inf", BoolS)], "int(float)")
+                if o == 0:
+                    I.raise_("ValueError")
+                if o == 1:
+                    I.raise_("OverflowError")
+                return Sym(c.fresh("truncated", IntS), "int")
+            I.raise_("TypeError")  # int(list)
         return MISSING
 
     def b_str(self, I, a, k):
@@ -590,6 +601,9 @@ class Lib:
         raise Unsupported("len")
 
     def b_max(self, I, a, k):
+        r = self._minmax2(I, a, True)
+        if r is not MISSING:
+            return r
         v = a[0]
         if isinstance(v, Obj) and v.typ.kind == "dict" and v.typ.args[0] == TInt and len(a) == 1:
             if not I.c.branch(I.d_nonempty(v), "max-nonempty"):
@@ -606,6 +620,28 @@ class Lib:
                 I.raise_("ValueError")
             return max(v)
         raise Unsupported("max")
+
+    def _minmax2(self, I, a, is_max):
+        vals = [I.intv(x) for x in a]
+        if len(a) >= 2 and all(v is not None for v in vals):
+            r = vals[0]
+            for v in vals[1:]:
+                r_ = z3.IntVal(r) if isinstance(r, int) else r
+                v_ = z3.IntVal(v) if isinstance(v, int) else v
+                r = z3.If(r_ >= v_, r_, v_) if is_max else z3.If(r_ <= v_, r_, v_)
+            return I.mk(r, "int")
+        return MISSING
+
+    def b_min(self, I, a, k):
+        r = self._minmax2(I, a, False)
+        if r is MISSING:
+            raise Unsupported("min")
+        return r
+
+    def b_range(self, I, a, k):
+        if all(isinstance(x, int) for x in a):
+            return list(range(*a))
+        raise Unsupported("range with symbolic bounds")
 
     def b_getattr(self, I, a, k):
         o, name = a[0], a[1]
